@@ -16,10 +16,13 @@ mkdir -p $S/verif/evidence $S/verif/replays
 git -C /repo worktree remove --force $S/repo 2>/dev/null; rm -rf $S/repo; git -C /repo worktree prune
 git -C /repo worktree add --detach $S/repo HEAD -q || exit 2
 sed -i "s#/repo/falcon-rust#$S/repo/falcon-rust#" $S/verif/sim/Cargo.toml
-if ! git -C $S/repo apply "$PATCH"; then echo "patch does not apply"; git -C /repo worktree remove --force $S/repo; exit 2; fi
+mode=$(/verif/tools/apply_seeded.sh $S/repo "$PATCH")
+if [ "$mode" = FAIL ]; then echo "patch does not apply"; git -C /repo worktree remove --force $S/repo; exit 2; fi
+echo "(applied: $mode)"
+extra=""; [ "$mode" = BASE ] && extra="VERIF_C08_NO_FORK=1"
 for id in "$@"; do
     start=$(date +%s)
-    VERIF_ROOT=$S/verif $S/verif/check "$id" "$TIER" > $S/$id.out 2>&1; rc=$?
+    env $extra VERIF_ROOT=$S/verif $S/verif/check "$id" "$TIER" > $S/$id.out 2>&1; rc=$?
     end=$(date +%s)
     echo "== $id $TIER exit=$rc ($((end-start))s)"
     grep -E "^(VIOLATION|KNOWN-FINDING|HARNESS-ERROR|  class:)" "$S/$id.out" | cut -c1-260 | head -12
